@@ -282,6 +282,17 @@ class ProbeError(Exception):
     pass
 
 
+def exc_class(name: str):
+    """Exception class by name: the harness's own classes or any builtin exception."""
+    import builtins
+
+    if name == "ProbeError":
+        return ProbeError
+    cls = getattr(builtins, name)
+    assert isinstance(cls, type) and issubclass(cls, Exception)
+    return cls
+
+
 class TwoArgError(Exception):
     def __init__(self, a, b):
         super().__init__(a, b)
@@ -329,10 +340,7 @@ def fault2(detector, tag=None, token="tok", exc="ValueError", at_step=None, at_t
     if armed and (at_step is None or int(detector.pipeline_count) == int(at_step)) and (at_temp is None or float(temp) == float(at_temp)):
         if exc == "TwoArgError":
             raise TwoArgError(token, 42)
-        classes = {"ValueError": ValueError, "KeyError": KeyError, "RuntimeError": RuntimeError, "ZeroDivisionError": ZeroDivisionError,
-                   "OSError": OSError, "ProbeError": ProbeError, "TypeError": TypeError, "IndexError": IndexError,
-                   "AssertionError": AssertionError, "StopIteration": StopIteration, "FloatingPointError": FloatingPointError}
-        raise classes[exc](token)
+        raise exc_class(exc)(token)
     detector.pixel.array = detector.pixel.array + 1.0
     detector.image.array = np.full(detector.geometry.shape, 3, dtype=np.uint16)
 
@@ -382,6 +390,5 @@ def fault_at_call(detector, n=None, token="tok", exc="ValueError", tag=None):
     if n is not None and k == int(n):
         if exc == "TwoArgError":
             raise TwoArgError(token, 42)
-        raise {"ValueError": ValueError, "KeyError": KeyError, "RuntimeError": RuntimeError, "ZeroDivisionError": ZeroDivisionError,
-               "ProbeError": ProbeError, "TypeError": TypeError}[exc](token)
+        raise exc_class(exc)(token)
     detector.pixel.array = detector.pixel.array + float(k % 7)
